@@ -13,7 +13,7 @@ func init() {
 		if rs, ok := c["res"].([]any); ok {
 			for _, r := range rs {
 				if a, ok := r.([]any); ok && len(a) > 0 {
-					if f, ok := a[0].(float64); ok {
+					if f, ok := num(a[0]); ok {
 						offs = append(offs, int(f))
 					}
 				}
